@@ -2,4 +2,5 @@ pub mod auth;
 pub mod c03;
 pub mod c05;
 pub mod c09;
+pub mod c10;
 pub mod c11;
